@@ -194,7 +194,13 @@ class C08(E1Prop):
                 plans = r.sample(plans, op['nmax'])
             op['plans'] = plans
             op['pushes_clean'] = pushes
-        for plan in list(op['plans']):
+        for pi, plan in enumerate(list(op['plans'])):
+            import time
+            if getattr(w, 'deadline', None) and pi > 0 and \
+                    time.time() > w.deadline:
+                w.probe('probe-truncated-by-wall-budget')
+                break
+
             def variant(w_, plan=plan):
                 recs = w_.deliver(dict(ev), plan=dict(plan))
                 j = plan['push']
